@@ -410,6 +410,75 @@ def r15_9(chk, P):
     return n
 
 
+def r15_10(chk, P):
+    chk.rule('R15.10', 'a finished set-up is not staged again: every public function of vorbisenc.c other than the final step and the '
+             'control interface (which have their own rules, R13.12 and R15.4) that stores into the staged settings '
+             '(highlevel_encode_setup, directly or in a file-local callee) or into vi->channels / vi->rate tests set_in_stone first: '
+             'with the continuing edge of every set_in_stone test removed, no such store or storing call is reachable from the '
+             'entry.  Re-staging a frozen info re-stamps the channel count and rate under tables built for the old ones')
+    api = set(common.encode_api(P))
+    HI = ('highlevel_encode_setup', 'highlevel_byblocktype')
+
+    def stores_staged(G):
+        for e in G.pos:
+            nd = G.ex[e]
+            tgt = None
+            if nd['k'] == 'assign':
+                tgt = nd['c'][0]
+            if tgt is None:
+                continue
+            l = G.ex[G.strip_casts(tgt)]
+            while l['k'] == 'sub':
+                l = G.ex[G.strip_casts(l['c'][0])]
+            if l['k'] == 'member' and (l.get('record') in HI or (l.get('record') == 'vorbis_info' and l['field'] in ('channels', 'rate'))):
+                if not (l['field'] == 'set_in_stone'):
+                    return True
+        return False
+    storing = {P.key(G) for G in P.functions() if G.file.endswith('vorbisenc.c') and stores_staged(G)}
+    n = 0
+    for F in P.functions():
+        if not F.file.endswith('vorbisenc.c') or F.name not in api or F.name in ('vorbis_encode_ctl', 'vorbis_encode_setup_init'):
+            continue
+        sites = [e for e in F.pos if F.ex[e]['k'] == 'assign' and P.key(F) in storing and
+                 (lambda l: l['k'] == 'member' and (l.get('record') in HI or (l.get('record') == 'vorbis_info' and l['field'] in ('channels', 'rate'))))(
+                     (lambda l: l)(F.ex[F.strip_casts(F.ex[e]['c'][0])]))]
+        sites += [c for c in F.calls() if any(t in storing and P.fn[t].static for t in P.call_targets(F, c))]
+        if not sites:
+            continue        # delegates to other public entry points only
+
+        def reads_flag(c):
+            return any(F.ex[x]['k'] == 'member' and F.ex[x]['field'] == 'set_in_stone' for x in F.walk(c))
+        fb = {F.pos[e][0] for e in sites}
+
+        def reach(b0, cut):
+            seen, st = set(), [b0]
+            while st:
+                b = st.pop()
+                if b is None or b in seen:
+                    continue
+                seen.add(b)
+                for i_, s_ in enumerate(F.blocks[b]['succs']):
+                    if (b, i_) not in cut:
+                        st.append(s_)
+            return seen
+        cut = set()
+        tests = 0
+        for b, blk in F.blocks.items():
+            t = blk.get('term') or {}
+            if t.get('cond') is not None and len(blk['succs']) == 2 and reads_flag(t['cond']):
+                tests += 1
+                for i_, s_ in enumerate(blk['succs']):
+                    if s_ is not None and reach(s_, set()) & fb:
+                        cut.add((b, i_))
+        seen = reach(F.entry, cut)
+        bad = [e for e in sites if F.pos[e][0] in seen]
+        n += 1
+        chk.ob('R15.10', F.name, 'staging-refused-once-frozen', not bad, F.where(bad[0]) if bad else F.where(),
+               f'{tests} test(s) of set_in_stone guard all {len(sites)} staging stores / calls' if not bad else
+               f'`{F.s(bad[0])[:60]}` is reachable without a test of set_in_stone: the call re-stages an info whose set-up was completed')
+    return n
+
+
 def r15_7(chk, P):
     chk.rule('R15.7', 'a refused control request changes nothing: on every path of vorbis_encode_ctl that ends in a negative return '
              'code no field of the staged set-up (highlevel_encode_setup and its per-block records) has been stored '
@@ -441,6 +510,8 @@ def run(chk, P):
     chk.floor('R15.8', 2)
     r15_9(chk, P)
     chk.floor('R15.9', 10)
+    r15_10(chk, P)
+    chk.floor('R15.10', 2)
     r15_2(chk, P)
     chk.floor('R15.2', 8)
     r15_3(chk, P)
